@@ -128,98 +128,122 @@ theorem RI_recvWith (s : St) (r : Nat) (x : Rx) (d e : Res) {P : Prop} (hri : RI
 theorem rxCloseInternal_txs (s : St) (r : Nat) : (rxCloseInternal s r).txs = s.txs := by
   cases hx : s.rxs[r]? with
   | none => rw [rxCloseInternal_none s r hx]
-  | some x => rw [rxCloseInternal_eq s r x hx]; split <;> rfl
+  | some x =>
+    rw [rxCloseInternal_eq s r x hx]; split
+    · exact foldl_unsubscribeCore_txs _ _ _
+    · rfl
 
 theorem rxCloseInternal_length (s : St) (r : Nat) : (rxCloseInternal s r).rxs.length = s.rxs.length := by
   cases hx : s.rxs[r]? with
   | none => rw [rxCloseInternal_none s r hx]
-  | some x => rw [rxCloseInternal_eq s r x hx]; split <;> simp [length_modAt]
+  | some x =>
+    rw [rxCloseInternal_eq s r x hx]; split
+    · exact foldl_unsubscribeCore_length _ _ _
+    · rfl
 
 theorem rxCloseInternal_rxs_ne (s : St) (r q : Nat) (hq : r ≠ q) : (rxCloseInternal s r).rxs[q]? = s.rxs[q]? := by
   cases hx : s.rxs[r]? with
   | none => rw [rxCloseInternal_none s r hx]
   | some x =>
     rw [rxCloseInternal_eq s r x hx]; split
-    · simp [getElem?_modAt_ne _ _ _ _ hq]
+    · exact foldl_unsubscribeCore_rxs_ne _ _ _ _ hq
     · rfl
 
-/-- entries after a receiver's `close_internal`: unchanged or `subs := []` -/
-theorem rel_rxCloseInternal' (R : Rx → Rx → Prop) (hr : ∀ x, R x x) (hs : ∀ x, R x { x with subs := [] })
-    (s : St) (q : Nat) (r : Nat) (y : Rx) (hy : (rxCloseInternal s q).rxs[r]? = some y) :
-    ∃ x, s.rxs[r]? = some x ∧ R x y := by
-  cases hx : s.rxs[q]? with
-  | none => rw [rxCloseInternal_none s q hx] at hy; exact ⟨y, hy, hr y⟩
-  | some x =>
-    rw [rxCloseInternal_eq s q x hx] at hy
-    split at hy
-    · simp only [] at hy
-      rw [getElem?_modAt] at hy
-      by_cases h : q = r
-      · simp only [h, if_true] at hy
-        cases hl : s.rxs[r]? with
-        | none => simp [hl] at hy
-        | some z => simp only [hl, Option.map_some, Option.some.injEq] at hy; subst hy; exact ⟨z, rfl, hs z⟩
-      · simp only [h, if_false] at hy; exact ⟨y, hy, hr y⟩
-    · exact ⟨y, hy, hr y⟩
-
 theorem RI_foldl_subscribeCore (l : List Topic) (s : St) (n : Nat) (x0 : Rx) (hx0 : s.rxs[n]? = some x0)
-    (hl0 : x0.live = true) {P : Prop} (h : RI P s) : RI P (l.foldl (fun s t => subscribeCore s n t) s) := by
+    (hl0 : x0.live = true) {P : Prop} (hc0 : P → x0.closed = false) (h : RI P s) :
+    RI P (l.foldl (fun s t => subscribeCore s n t) s) := by
   induction l generalizing s x0 with
   | nil => exact h
   | cons t l ih =>
     simp only [List.foldl_cons]
-    have h1 := RI_subscribeCore s n t x0 hx0 hl0 h
-    -- the entry of `n` after the step is still live
+    have h1 := RI_subscribeCore s n t x0 hx0 hl0 hc0 h
+    -- the entry of `n` after the step is still live and as closed as before
     rcases subscribeCore_rxs s n t with he | he
+    · exact ih _ x0 (by rw [he]; exact hx0) hl0 hc0 h1
+    · exact ih _ { x0 with subs := x0.subs ++ [t] } (by rw [he, getElem?_modAt_self, hx0]; rfl) hl0 hc0 h1
+
+theorem RI_foldl_unsubscribeCore (l : List Topic) (s : St) (n : Nat) (x0 : Rx) (hx0 : s.rxs[n]? = some x0)
+    (hl0 : x0.live = true) {P : Prop} (h : RI P s) : RI P (l.foldl (fun s t => unsubscribeCore s n t) s) := by
+  induction l generalizing s x0 with
+  | nil => exact h
+  | cons t l ih =>
+    simp only [List.foldl_cons]
+    have h1 := RI_unsubscribeCore s n t x0 hx0 hl0 h
+    rcases unsubscribeCore_rxs s n t with he | he
     · exact ih _ x0 (by rw [he]; exact hx0) hl0 h1
-    · exact ih _ { x0 with subs := x0.subs ++ [t] } (by rw [he, getElem?_modAt_self, hx0]; rfl) hl0 h1
+    · exact ih _ { x0 with subs := x0.subs.filter (fun u => u != t) } (by rw [he, getElem?_modAt_self, hx0]; rfl) hl0 h1
 
-/-- for arbitrary histories (`¬P`): only "no dispatcher ⇒ dispatcher dead" and "own subscription
-⇒ registered" are claimed, so an operation may also shrink a subscription set or set `closed` -/
-theorem RI_weak_frame (s s' : St) (hr : s'.regs = s.regs) (hlen : s.rxs.length ≤ s'.rxs.length)
-    (hd : dispAlive s' = true → dispAlive s = true)
-    (hx : ∀ (r : Nat) (y : Rx), s'.rxs[r]? = some y → y.live = true →
-      ∃ x, s.rxs[r]? = some x ∧ x.live = true ∧ y.hasDisp = x.hasDisp ∧ ∀ t, t ∈ y.subs → t ∈ x.subs)
-    {P : Prop} (hP : ¬ P) (h : RI P s) : RI P s' := by
-  refine ⟨fun t r hm => Nat.lt_of_lt_of_le (h.inRange t r (hr ▸ hm)) hlen, ?_⟩
-  intro r y hy hl
-  obtain ⟨x, hx1, hxl, hxd, hxs⟩ := hx r y hy hl
-  obtain ⟨a, _, _, d⟩ := h.ok r x hx1 hxl
-  refine ⟨?_, fun h' => absurd h' hP, fun h' => absurd h' hP, ?_⟩
-  · intro h1
-    cases hda : dispAlive s' with
-    | false => rfl
-    | true => rw [hxd] at h1; rw [a h1] at hd; exact absurd (hd hda) (by simp)
-  · intro h1 h2 t ht; rw [hr]; rw [hxd] at h1; exact d h1 (hd h2) t (hxs t ht)
+/-- the close part of `close()` / of dropping an open receiver: set the flag, run
+`close_internal`. The receiver ends up with an empty subscription set (if the dispatcher is
+reachable), everybody else is untouched. -/
+theorem RI_closePart (s : St) (r : Nat) (x : Rx) (hx : s.rxs[r]? = some x) (hl : x.live = true)
+    {P : Prop} (hri : RI P s) :
+    RI P (rxCloseInternal { s with rxs := modAt s.rxs r (fun x => { x with closed := true }) } r) := by
+  -- without the P-guarded clause the flag does not matter
+  have hw : RI False s := RI_weaken s (fun hf => absurd hf id) hri
+  have hw1 : RI False { s with rxs := modAt s.rxs r (fun x => { x with closed := true }) } := by
+    refine ⟨fun t q hm => by simp only [length_modAt]; exact hw.inRange t q hm, ?_⟩
+    intro q y hy hly
+    rw [getElem?_modAt] at hy
+    by_cases hq : r = q
+    · subst hq
+      simp only [if_true, hx, Option.map_some, Option.some.injEq] at hy; subst hy
+      obtain ⟨a, _, c, d⟩ := hw.ok r x hx hl
+      exact ⟨a, fun hf => absurd hf id, c, d⟩
+    · simp only [hq, if_false] at hy
+      obtain ⟨a, _, c, d⟩ := hw.ok q y hy hly
+      exact ⟨a, fun hf => absurd hf id, c, d⟩
+  have hx1 : ({ s with rxs := modAt s.rxs r (fun x => { x with closed := true }) } : St).rxs[r]? =
+      some { x with closed := true } := by simp [getElem?_modAt_self, hx]
+  -- weak invariant after close_internal
+  have hw2 : RI False (rxCloseInternal { s with rxs := modAt s.rxs r (fun x => { x with closed := true }) } r) := by
+    rw [rxCloseInternal_eq _ r _ hx1]
+    split
+    · have h3 := RI_foldl_unsubscribeCore x.subs _ r _ hx1 hl hw1
+      exact ⟨h3.inRange, fun q y hy hly => h3.ok q y hy hly⟩
+    · exact hw1
+  -- and the guarded clause, entry by entry
+  refine ⟨hw2.inRange, ?_⟩
+  intro q y hy hly
+  obtain ⟨a, _, c, d⟩ := hw2.ok q y hy hly
+  refine ⟨a, ?_, c, d⟩
+  intro hP hda hcl
+  have hda' : dispAlive s = true := by
+    rw [dispAlive_congr _ _ (rxCloseInternal_txs _ r)] at hda; exact hda
+  by_cases hq : r = q
+  · subst hq
+    rw [rxCloseInternal_eq _ r _ hx1] at hy
+    split at hy
+    · rw [foldl_unsubscribeCore_self _ _ r _ hx1] at hy
+      simp only [Option.some.injEq] at hy; subst hy
+      simp only [List.filter_eq_nil_iff]
+      intro u hu; simp [hu]
+    · rename_i hu
+      -- dispatcher reachable for everybody but this handle has none: contradiction with `a`
+      rw [hx1] at hy; simp only [Option.some.injEq] at hy; subst hy
+      have hh : x.hasDisp = false := by
+        cases hh : x.hasDisp with
+        | false => rfl
+        | true => exact absurd ((upgradable_iff _ _).2 ⟨hh, hda'⟩) hu
+      have := (hw.ok r x hx hl).1 hh
+      rw [this] at hda'; cases hda'
+  · rw [rxCloseInternal_rxs_ne _ _ _ hq, getElem?_modAt_ne _ _ _ _ hq] at hy
+    exact (hri.ok q y hy hly).2.1 hP hda' hcl
 
-theorem RI_step (s : St) (op : Op) {P : Prop} (hop : P → ∀ r, op ≠ .rClose r) (hri : RI P s) : RI P (step s op).1 := by
+/-- `subscribe` is not called on a closed handle -/
+def OkSub (s : St) (op : Op) : Prop :=
+  ∀ r t x, op = .subscribe r t → s.rxs[r]? = some x → x.closed = false
+
+theorem RI_step (s : St) (op : Op) {P : Prop} (hop : P → OkSub s op) (hri : RI P s) : RI P (step s op).1 := by
   cases op with
   | rClose r =>
-    by_cases hP : P
-    · exact absurd rfl (hop hP r)
-    · simp only [step, rClose]; split
+    simp only [step, rClose]; split
+    · exact hri
+    · rename_i x hx
+      obtain ⟨h1, h2⟩ := rxLive_some s r x hx
+      split
       · exact hri
-      · split
-        · exact hri
-        · refine RI_weak_frame s _ ?_ ?_ ?_ ?_ hP hri
-          · rw [regs_rxCloseInternal]
-          · rw [rxCloseInternal_length]; simp [length_modAt]
-          · rw [dispAlive_congr _ _ (rxCloseInternal_txs _ r)]; exact id
-          · intro q y hy hl
-            obtain ⟨x1, hx1, hc1⟩ := rel_rxCloseInternal'
-              (fun x y => y.live = x.live ∧ y.hasDisp = x.hasDisp ∧ ∀ t, t ∈ y.subs → t ∈ x.subs)
-              (fun _ => ⟨rfl, rfl, fun _ h => h⟩) (fun _ => ⟨rfl, rfl, fun _ h => by simp at h⟩) _ r q y hy
-            rw [getElem?_modAt] at hx1
-            by_cases hq : r = q
-            · subst hq
-              simp only [if_true] at hx1
-              cases h0 : s.rxs[r]? with
-              | none => simp [h0] at hx1
-              | some z =>
-                simp only [h0, Option.map_some, Option.some.injEq] at hx1; subst hx1
-                exact ⟨z, rfl, by rw [← hc1.1]; exact hl, hc1.2.1, hc1.2.2⟩
-            · simp only [hq, if_false] at hx1
-              exact ⟨x1, hx1, by rw [← hc1.1]; exact hl, hc1.2.1, hc1.2.2⟩
+      · exact RI_closePart s r x h1 h2 hri
   | send h t v =>
     simp only [step]
     rcases send_cases s h t v with ⟨x, _, _, _, he⟩ | ⟨h1, _⟩
@@ -264,7 +288,7 @@ theorem RI_step (s : St) (op : Op) {P : Prop} (hop : P → ∀ r, op ≠ .rClose
     · exact hri
     · rename_i x hx
       obtain ⟨h1, h2⟩ := rxLive_some s r x hx
-      exact RI_subscribeCore s r t x h1 h2 hri
+      exact RI_subscribeCore s r t x h1 h2 (fun hP => hop hP r t x rfl h1) hri
   | unsubscribe r t =>
     simp only [step, unsubscribe]; split
     · exact hri
@@ -279,7 +303,7 @@ theorem RI_step (s : St) (op : Op) {P : Prop} (hop : P → ∀ r, op ≠ .rClose
       obtain ⟨a0, b0, c0, d0⟩ := hri.ok r x hx1 hxl
       split
       · -- live clone: append a fresh entry, then subscribe it
-        apply RI_foldl_subscribeCore _ _ s.rxs.length (freshRx x) (by simp) rfl
+        apply RI_foldl_subscribeCore _ _ s.rxs.length (freshRx x) (by simp) rfl (fun _ => rfl)
         refine ⟨fun t q hq => by simp only [List.length_append, List.length_cons, List.length_nil]; have := hri.inRange t q hq; omega, ?_⟩
         intro q y hy hl
         by_cases hq : q < s.rxs.length
@@ -291,8 +315,8 @@ theorem RI_step (s : St) (op : Op) {P : Prop} (hop : P → ∀ r, op ≠ .rClose
           subst hq'
           simp only [List.getElem?_concat_length, Option.some.injEq] at hy
           subst hy
-          refine ⟨fun h1 => by simp [freshRx] at h1, fun _ _ => rfl, ?_, fun _ _ t ht => by simp [freshRx] at ht⟩
-          intro _ _ t ht
+          refine ⟨fun h1 => by simp [freshRx] at h1, fun _ _ hc => by simp [freshRx] at hc, ?_, fun _ _ t ht => by simp [freshRx] at ht⟩
+          intro _ t ht
           have := hri.inRange t _ ht; omega
       · -- dead clone
         rename_i hu
@@ -314,43 +338,33 @@ theorem RI_step (s : St) (op : Op) {P : Prop} (hop : P → ∀ r, op ≠ .rClose
           subst hq'
           simp only [List.getElem?_concat_length, Option.some.injEq] at hy
           subst hy
-          refine ⟨fun _ => hda, fun _ h1 => by simp [deadRx] at h1, ?_, fun h1 => by simp [deadRx] at h1⟩
-          intro _ h2; have h3 : dispAlive s = true := h2; rw [hda] at h3; cases h3
+          refine ⟨fun _ => hda, fun _ _ _ => rfl, ?_, fun h1 => by simp [deadRx] at h1⟩
+          intro h2; have h3 : dispAlive s = true := h2; rw [hda] at h3; cases h3
   | rDrop r =>
     simp only [step, rDrop]; split
     · exact hri
     · rename_i x hx
-      -- whatever the close part did, regs/txs are unchanged and only entry `r` changed; `r` ends dead
-      have key : ∀ s1 : St, s1.regs = s.regs → s1.txs = s.txs → s1.rxs.length = s.rxs.length →
-          (∀ q, r ≠ q → s1.rxs[q]? = s.rxs[q]?) →
+      obtain ⟨hx1, hxl⟩ := rxLive_some s r x hx
+      -- after the close part (if any) the invariant holds; then entry `r` stops being live
+      have key : ∀ s1 : St, RI P s1 →
           RI P { s1 with rxs := modAt s1.rxs r (fun x => { x with live := false, disc := true }) } := by
-        intro s1 hr ht hlen hne
-        refine RI_frame_core s _ ?_ ?_ ?_ ?_ hri
-        · exact hr
-        · simp [length_modAt, hlen]
-        · simp only [dispAlive, ht]; exact id
+        intro s1 h1
+        refine RI_frame_core s1 _ ?_ ?_ ?_ ?_ h1
+        · rfl
+        · simp [length_modAt]
+        · exact fun h => h
         intro q y hy hl
         by_cases hq : r = q
         · subst hq
           rw [getElem?_modAt_self] at hy
-          cases h1 : s1.rxs[r]? with
-          | none => simp [h1] at hy
-          | some z => simp only [h1, Option.map_some, Option.some.injEq] at hy; subst hy; simp at hl
-        · rw [getElem?_modAt_ne _ _ _ _ hq, hne q hq] at hy
+          cases h0 : s1.rxs[r]? with
+          | none => simp [h0] at hy
+          | some z => simp only [h0, Option.map_some, Option.some.injEq] at hy; subst hy; simp at hl
+        · rw [getElem?_modAt_ne _ _ _ _ hq] at hy
           exact ⟨y, hy, SameCore.refl y⟩
       split
-      · split
-        · exact key s rfl rfl rfl (fun _ _ => rfl)
-        · apply key
-          · rw [regs_rxCloseInternal]
-          · rw [rxCloseInternal_txs]
-          · rw [rxCloseInternal_length]; simp [length_modAt]
-          · intro q hq; rw [rxCloseInternal_rxs_ne _ _ _ hq]; simp [getElem?_modAt_ne _ _ _ _ hq]
-      · apply key
-        · rw [regs_rxCloseInternal]
-        · rw [rxCloseInternal_txs]
-        · rw [rxCloseInternal_length]
-        · intro q hq; rw [rxCloseInternal_rxs_ne _ _ _ hq]
+      · exact key s hri
+      · exact key _ (RI_closePart s r x hx1 hxl hri)
   | rConv r =>
     simp only [step, rConv]; split
     · exact hri
@@ -401,7 +415,7 @@ theorem RI_init (cap : Nat) (k : Kind) (P : Prop) : RI P (init cap k) := by
   | zero =>
     simp only [init, List.getElem?_cons_zero, Option.some.injEq] at hx
     subst hx
-    exact ⟨fun h => by simp at h, fun _ _ => rfl, fun _ _ t ht => by simp [init] at ht, fun _ _ t ht => by simp at ht⟩
+    exact ⟨fun h => by simp at h, fun _ _ hc => by simp at hc, fun _ t ht => by simp [init] at ht, fun _ _ t ht => by simp at ht⟩
   | succ n => simp [init] at hx
 
 end Fv.Chan.Topic
